@@ -893,7 +893,17 @@ func ParseSpecFile(path, src, pkgPath string) (*SpecFile, error) {
 			if curF == nil {
 				return nil, errf(c, "call outside func")
 			}
-			// call PATTERN requires EXPR
+			// call PATTERN requires EXPR   |   call PATTERN use L(args)
+			if ku := strings.Index(c.rest, " use "); ku >= 0 && !strings.Contains(c.rest[:ku], " requires ") {
+				pat := strings.TrimSpace(c.rest[:ku])
+				cl, err := parseClause(c, strings.TrimSpace(c.rest[ku+len(" use "):]))
+				if err != nil {
+					return nil, err
+				}
+				cl.Where = "use"
+				curF.CallReq[pat] = append(curF.CallReq[pat], cl)
+				break
+			}
 			k := strings.Index(c.rest, " requires ")
 			if k < 0 {
 				return nil, errf(c, "call PATTERN requires EXPR")
